@@ -88,8 +88,10 @@ def t_repeat(spec, rng):
 
 def t_relabel(spec, rng):
     tips = U.tree_tips(spec["tree"])
-    new = [f"s{i}x" for i in range(len(tips))]
-    rng.shuffle(new)
+    taken = set(U.tree_edges(spec["tree"])) | {"root"}
+    fams = [f for f in U.TIP_FAMILIES if not (set(f) & (taken - set(tips)))]
+    fam = [n for n in rng.choice(fams or U.TIP_FAMILIES)]
+    new = rng.sample(fam, len(tips)) if len(tips) <= len(fam) else [f"s{i}x" for i in range(len(tips))]
     ren = dict(zip(tips, new))
     tree = copy.deepcopy(spec["tree"])
 
@@ -106,34 +108,83 @@ def t_relabel(spec, rng):
     return s, 1
 
 
-def t_reroot(spec, rng):
+def _strip_edge_rules(spec):
+    s = copy.deepcopy(spec)
+    s["rules"] = [r for r in spec["rules"] if "edge" not in r]
+    return s
+
+
+def reroot_targets(spec):
+    """every root placement cogent3 offers by name: rooted_at each internal node, rooted_with_tip each tip"""
+    out = []
+
+    def walk(n, top):
+        for c in n["children"]:
+            if c["children"]:
+                out.append(("rooted_at", c["name"]))
+            elif not top:
+                out.append(("rooted_with_tip", c["name"]))
+            walk(c, False)
+
+    walk(spec["tree"], True)
+    return out
+
+
+def t_reroot_to(spec, how, name):
     """cogent3's own rooted_at / rooted_with_tip; edge names (hence edge-scoped parameters) are kept"""
     import cogent3
 
     tree = cogent3.make_tree(spec["newick"])
-    internal = [n.name for n in tree.postorder() if n.children and n is not tree]
-    if internal and rng.random() < 0.6:
-        new = tree.rooted_at(rng.choice(internal))
-        how = "rooted_at"
-    else:
-        cands = [t.name for t in tree.tips() if t.parent is not tree]
-        if not cands:
-            return None
-        new = tree.rooted_with_tip(rng.choice(cands))
-        how = "rooted_with_tip"
-    # sanity of the tree operation itself (the relation is about the likelihood, not about C09)
-    old_edges = {n.name: n.length for n in tree.postorder() if n is not tree}
-    new_edges = {n.name: n.length for n in new.postorder() if n is not new}
-    if old_edges != new_edges:
-        return None
+    new = tree.rooted_at(name) if how == "rooted_at" else tree.rooted_with_tip(name)
     s = _with_tree(spec, _tree_from_cogent(new))
     s["how"] = how
+    s["target"] = name
     return s, 1
 
 
-def t_split(spec, rng):
-    """split one edge in two through a unary node; both halves inherit the edge's scoped parameters"""
-    tree = copy.deepcopy(spec["tree"])
+def t_reroot(spec, rng):
+    cands = reroot_targets(spec)
+    if not cands:
+        return None
+    return t_reroot_to(spec, *rng.choice(cands))
+
+
+def t_unrooted(spec, rng, flip=False):
+    """TreeNode.unrooted(): a bifurcating root is dissolved, the removed edge's length goes onto the sister edge.
+    Edge-scoped parameters are dropped on both sides (the two merged edges must share their process)."""
+    import cogent3
+
+    if len(spec["tree"]["children"]) != 2 or not any(c["children"] for c in spec["tree"]["children"]):
+        return None
+    orig = _strip_edge_rules(spec)
+    if flip:
+        # the same problem with the root's two children in the other order (tip-clade <-> clade-tip)
+        tree = copy.deepcopy(orig["tree"])
+        tree["children"].reverse()
+        orig = _with_tree(orig, tree)
+    new = cogent3.make_tree(orig["newick"]).unrooted()
+    s = _with_tree(orig, _tree_from_cogent(new))
+    s["merged_zero"] = any(c["len"] == 0.0 for c in spec["tree"]["children"])
+    return s, 1, orig
+
+
+def t_midpoint(spec, rng):
+    """TreeNode.root_at_midpoint(): may splice a new node into an edge; node names are not kept, so
+    edge-scoped parameters are dropped on both sides"""
+    import cogent3
+
+    orig = _strip_edge_rules(spec)
+    new = cogent3.make_tree(spec["newick"]).root_at_midpoint()
+    s = _with_tree(orig, _tree_from_cogent(new))
+    s["has_zero"] = any(l == 0.0 for l in _lengths(spec["tree"]))
+    return s, 1, orig
+
+
+def _lengths(n):
+    return [c["len"] for c in n["children"]] + [l for c in n["children"] for l in _lengths(c)]
+
+
+def _edges(tree):
     pairs = []
 
     def walk(n):
@@ -142,39 +193,109 @@ def t_split(spec, rng):
             walk(c)
 
     walk(tree)
-    p, c = rng.choice(pairs)
-    f = rng.choice([0.5, rng.uniform(0.05, 0.95)])
+    return pairs
+
+
+def t_split_edge(spec, edge, piece, upper=True):
+    """split the named edge in two through a unary node; `piece` is the absolute length of one half
+    (the upper one if `upper`); both halves inherit the edge's scoped parameters"""
+    tree = copy.deepcopy(spec["tree"])
+    p, c = [(p, c) for p, c in _edges(tree) if c["name"] == edge][0]
     total = c["len"]
-    mid = dict(name="splitnode", len=total * f, children=[c])
-    c["len"] = total - mid["len"]
+    if piece >= total:
+        piece = total / 2
+    up = piece if upper else total - piece
+    mid = dict(name="splitnode", len=up, children=[c])
+    c["len"] = total - up
     p["children"][p["children"].index(c)] = mid
     s = _with_tree(spec, tree)
-    s["rules"] = list(spec["rules"]) + [dict(r, edge="splitnode") for r in spec["rules"] if r.get("edge") == c["name"]]
-    s["split_edge"] = c["name"]
+    s["rules"] = list(spec["rules"]) + [dict(r, edge="splitnode") for r in spec["rules"] if r.get("edge") == edge]
+    s["split_edge"] = edge
     s["split_total"] = total
+    s["split_piece"] = min(up, total - up)
     return s, 1
+
+
+def _rand_piece(rng, total):
+    r = rng.random()
+    if r < 0.5:
+        return rng.choice(U.TINY)
+    if r < 0.65:
+        return total * rng.choice([1e-3, 1e-6])
+    if r < 0.8:
+        return total * 0.5
+    return total * rng.uniform(0.05, 0.95)
+
+
+def t_split(spec, rng):
+    p, c = rng.choice(_edges(spec["tree"]))
+    return t_split_edge(spec, c["name"], _rand_piece(rng, c["len"]), rng.random() < 0.5)
+
+
+def t_root_on_edge(spec, rng):
+    """put the root INSIDE an edge (possibly within 1e-8..1e-12 of a node): split, then rooted_at the new node"""
+    p, c = rng.choice(_edges(spec["tree"]))
+    if c["len"] == 0.0:
+        return None
+    s1, _ = t_split_edge(spec, c["name"], _rand_piece(rng, c["len"]), rng.random() < 0.5)
+    s2, _ = t_reroot_to(s1, "rooted_at", "splitnode")
+    s2["how"] = "root_on_edge"
+    for k in ("split_edge", "split_total", "split_piece"):
+        s2[k] = s1[k]
+    return s2, 1
 
 
 TRANSFORMS = {
     "columns": t_columns, "seq_order": t_seq_order, "children": t_children, "repeat": t_repeat,
-    "relabel": t_relabel, "reroot": t_reroot, "split": t_split,
+    "relabel": t_relabel, "reroot": t_reroot, "split": t_split, "unrooted": t_unrooted,
+    "midpoint": t_midpoint, "root_on_edge": t_root_on_edge,
 }
+REVERSIBLE_ONLY = ("reroot", "unrooted", "midpoint", "root_on_edge")
+CONTINUOUS_ONLY = ("split", "unrooted", "midpoint", "root_on_edge")
 
 
 def applicable(spec, name):
-    if name == "reroot":
-        return spec["model"] not in NONREV
-    if name == "split":
-        return spec["model"] not in U.DISCRETE
+    if name in REVERSIBLE_ONLY and spec["model"] in NONREV:
+        return False
+    if name in CONTINUOUS_ONLY and spec["model"] in U.DISCRETE:
+        return False
     return True
+
+
+def jobs_for(base, rng, full):
+    """the list of (relation name, thunk) run on one base problem"""
+    jobs = []
+    for t in ("columns", "seq_order", "children", "children", "repeat", "relabel", "unrooted", "midpoint",
+              "root_on_edge", "root_on_edge"):
+        if applicable(base, t):
+            jobs.append((t, (lambda t=t: TRANSFORMS[t](base, rng))))
+    if applicable(base, "unrooted"):
+        jobs.append(("unrooted", (lambda: t_unrooted(base, rng, flip=True))))
+    if applicable(base, "reroot"):
+        for how, name in reroot_targets(base):
+            jobs.append(("reroot", (lambda how=how, name=name: t_reroot_to(base, how, name))))
+    if applicable(base, "split"):
+        edges = _edges(base["tree"])
+        pend = [c for _, c in edges if not c["children"]]
+        inner = [c for _, c in edges if c["children"]]
+        chosen = edges and [c for _, c in edges] if full else ([rng.choice(pend)] + ([rng.choice(inner)] if inner else []) + [rng.choice(edges)[1], rng.choice(edges)[1]])
+        for c in chosen:
+            jobs.append(("split", (lambda c=c: t_split_edge(base, c["name"], _rand_piece(rng, c["len"]), rng.random() < 0.5))))
+    return jobs
 
 
 # --------------------------------------------------------------------------
 def _rel_sig(tname, base, spec2):
     """failure class: relation, model kind, bins; a split of an edge whose length in the tree is exactly 0.0 is its own class"""
     t = tname
-    if tname == "split" and spec2.get("split_total") == 0.0:
+    if tname in ("split", "root_on_edge") and spec2.get("split_total") == 0.0:
         t = "split-of-zero-length-edge"
+    elif tname in ("split", "root_on_edge") and spec2.get("split_piece", 1.0) <= 1e-6:
+        t = tname + "-tiny-piece"
+    elif tname == "unrooted" and spec2.get("merged_zero"):
+        t = "unrooted-with-zero-length-edge"
+    elif tname == "reroot":
+        t = "reroot-" + str(spec2.get("how"))
     return f"rel:{t}:{base['kind']}:bins={'y' if base.get('bins', 1) > 1 else 'n'}"
 
 
@@ -183,12 +304,14 @@ def _lnl(spec):
     return lf, float(lf.lnL)
 
 
-def _pairs(ctx, rng, plan, out, collect=None):
-    """for every base problem run the applicable relations on the real implementation"""
-    for name, which in plan:
+def _pairs(ctx, rng, plan, out, collect=None, only=None):
+    """for every base problem run the applicable relations on the real implementation.
+    plan: [(model name, max number of relations or None for all)]"""
+    for name, limit in plan:
         kind = U.kind_of(name)
         small = kind in ("codon", "protein")
-        base = U.rand_problem(rng, name, ntips=rng.randint(3, 5) if small else None, ncols=rng.randint(3, 8) if small else None)
+        base = U.rand_problem(rng, name, ntips=rng.randint(3, 5) if small else None, ncols=rng.randint(3, 8) if small else None,
+                              root_deg=2 if rng.random() < 0.45 else None)
         if not base["mprobs"]:
             # motif probabilities estimated from the alignment use a pseudocount, i.e. are a different *parameter value*
             # after repeating columns; the relations are between runs with identical parameters
@@ -202,36 +325,60 @@ def _pairs(ctx, rng, plan, out, collect=None):
             continue
         if collect is not None:
             collect.append(base)
-        names = [t for t in (which or TRANSFORMS) if applicable(base, t)]
-        for tname in names:
-            r = TRANSFORMS[tname](base, rng)
+        bump(out, "root_layout", _root_layout(base["tree"]))
+        jobs = jobs_for(base, rng, ctx.thorough)
+        if only:
+            jobs = [j for j in jobs if j[0] in only]
+        if limit is not None and len(jobs) > limit:
+            jobs = rng.sample(jobs, limit)
+        ref = {id(base): l0}
+        ncollected = 0
+        for tname, thunk in jobs:
+            inp = dict(relation=tname, original=C02._slim(base))
+            try:
+                r = thunk()
+            except Exception as e:
+                add_failure(out, "spec", f"building the transformed problem ({tname}) raised", inp, "a tree",
+                            f"{type(e).__name__}: {e}", sig=f"rel-raised:{tname}:{kind}:{type(e).__name__}")
+                continue
             if r is None:
                 bump(out, "skipped", tname)
                 continue
-            spec2, k = r
+            spec2, k = r[0], r[1]
+            orig = r[2] if len(r) > 2 else base
             out["evaluations"] += 1
-            bump(out, "relation", tname)
+            bump(out, "relation", tname if tname != "reroot" else "reroot-" + spec2.get("how", ""))
             bump(out, "kind", kind)
             bump(out, "model", name)
-            inp = dict(relation=tname, k=k, original=C02._slim(base), transformed=C02._slim(spec2))
+            if "split_piece" in spec2:
+                bump(out, "split_piece_log10", "zero" if spec2["split_piece"] == 0 else int(math.floor(math.log10(spec2["split_piece"]))))
+            inp = dict(relation=tname, k=k, original=C02._slim(orig), transformed=C02._slim(spec2))
             try:
+                if orig is not base:
+                    key = (orig["newick"], len(orig["rules"]))
+                    if key not in ref:
+                        ref[key] = _lnl(orig)[1]
+                    lref = ref[key]
+                else:
+                    lref = l0
                 lf2, l2 = _lnl(spec2)
             except Exception as e:
                 add_failure(out, "spec", f"transformed problem ({tname}) raised", inp, "a likelihood function",
                             f"{type(e).__name__}: {e}", sig=f"rel-raised:{tname}:{kind}:{type(e).__name__}")
                 continue
-            want = k * l0
+            want = k * lref
             if not (abs(l2 - want) <= REL * abs(want) + 1e-12):
-                add_failure(out, "spec", f"lnL changes under {tname}", inp, want, l2, sig=_rel_sig(tname, base, spec2))
+                add_failure(out, "spec", f"lnL changes under {tname}", inp, want, l2, sig=_rel_sig(tname, orig, spec2))
             else:
-                out["nontrivial"].add((name, base["seed"], tname))
-            if collect is not None and tname in ("reroot", "split", "children"):
+                out["nontrivial"].add((name, base["seed"], tname, spec2.get("target"), spec2.get("split_edge"), spec2.get("split_piece")))
+            if collect is not None and ncollected < 3 and tname in ("reroot", "split", "children", "unrooted", "midpoint", "root_on_edge"):
                 collect.append(spec2)
-            if len(out["samples"]) < 6 and tname in ("reroot", "split"):
-                out["samples"].append(dict(relation=tname, model=name, original=base["newick"], transformed=spec2["newick"],
-                                           lnL=l0, lnL_transformed=l2))
+                ncollected += 1
+            if len(out["samples"]) < 8 and tname in ("reroot", "split", "unrooted", "midpoint", "root_on_edge") and rng.random() < 0.2:
+                out["samples"].append(dict(relation=tname, model=name, original=orig["newick"], transformed=spec2["newick"],
+                                           lnL=lref, lnL_transformed=l2))
         # negative control: non-reversible models are expected to change under re-rooting
-        if name in ("GN", "ssGN") and base["mprobs"]:
+        if name in ("GN", "ssGN"):
             r = t_reroot(base, rng)
             if r is not None:
                 try:
@@ -241,7 +388,14 @@ def _pairs(ctx, rng, plan, out, collect=None):
                     pass
 
 
-def _plan(ctx, rng, n_nuc, n_codon, n_prot, n_dinuc):
+def _root_layout(tree):
+    cs = tree["children"]
+    if len(cs) != 2:
+        return f"polytomy{len(cs)}"
+    return "-".join("clade" if c["children"] else "tip" for c in cs)
+
+
+def _plan(ctx, rng, n_nuc, n_codon, n_prot, n_dinuc, big_limit=5):
     kinds = U.model_kinds()
     nuc = [m for m, k in kinds.items() if k == "nucleotide"]
     codon = [m for m, k in kinds.items() if k == "codon"]
@@ -249,29 +403,34 @@ def _plan(ctx, rng, n_nuc, n_codon, n_prot, n_dinuc):
     rng.shuffle(nuc)
     plan = [(nuc[i % len(nuc)], None) for i in range(n_nuc)]
     for i in range(n_codon):
-        m = codon[(ctx.seed * n_codon + i) % len(codon)]
-        plan.append((m, rng.sample(list(TRANSFORMS), 3) if not ctx.thorough else None))
+        plan.append((codon[(ctx.seed * n_codon + i) % len(codon)], None if ctx.thorough else big_limit))
     for i in range(n_prot):
-        plan.append((prot[(ctx.seed * n_prot + i) % len(prot)], None))
-    plan += [(U.DINUC, None)] * n_dinuc
+        plan.append((prot[(ctx.seed * n_prot + i) % len(prot)], None if ctx.thorough else 2 * big_limit))
+    plan += [(U.DINUC, None if ctx.thorough else 2 * big_limit)] * n_dinuc
     return plan
 
 
 def spec_check(ctx, budget):
     out = new_outcome(
         "relations on the real implementation: lnL(original) vs lnL(transformed) for columns permuted in motif blocks, "
-        "sequence order, children order at every node, every column (or the whole alignment) repeated k in {2,3,5} "
-        "times, tips renamed, root moved with rooted_at/rooted_with_tip (reversible models; edge-scoped parameters kept by "
-        "edge name), an edge split through a unary node (continuous-time models); nucleotide models all, codon/protein "
-        "rotating with the seed (all in thorough), a dinucleotide model; trees 3-7 tips with polytomies, ambiguity, gaps, "
-        "1-4 bins, scoped parameters; tolerance 1e-8*|lnL|; non-trivial = (model, problem, relation) that held"
+        "sequence order, children order at every node (twice), every column (or the whole alignment) repeated k in {2,3,5} "
+        "times, tips renamed, root moved with rooted_at EVERY internal node and rooted_with_tip EVERY tip (reversible models; "
+        "edge-scoped parameters kept by edge name), TreeNode.unrooted() of bifurcating roots (tip-clade, clade-tip, clade-clade "
+        "child orders) and root_at_midpoint() (edge-scoped parameters dropped on both sides), root placed INSIDE an edge, an "
+        "edge split through a unary node (a pendant, an internal and two random edges; every edge in thorough) with pieces "
+        "1e-6/1e-8/5e-9/1e-9/1e-12, very unequal and equal splits; tip and node names from families of mutual prefixes / "
+        "suffixes / substrings (t1,t10,t100,t,1t / a,ab,abc / Hum,Human ...); branch lengths incl. 0.0 and tiny positive ones; "
+        "nucleotide models all, codon/protein rotating with the seed (all in thorough), a dinucleotide model; trees 3-7 tips with "
+        "polytomies, ambiguity, gaps, 1-4 bins, scoped parameters; tolerance 1e-8*|lnL|; non-trivial = (model, problem, relation, target) that held"
     )
     rng = ctx.subrng(f"spec{budget}")
     U.BIG_BINS = ctx.thorough
-    if budget <= 1:
-        plan = _plan(ctx, rng, 12, 3, 2, 1)
+    if ctx.thorough:
+        plan = _plan(ctx, rng, 12 * budget, 2 * budget, budget, 2)
+    elif budget <= 1:
+        plan = _plan(ctx, rng, 14, 2, 2, 1)
     else:
-        plan = _plan(ctx, rng, (30 if ctx.thorough else 10) * budget, max(2, 2 * budget if ctx.thorough else budget // 2), max(1, budget), 2)
+        plan = _plan(ctx, rng, 10 * budget, max(2, budget // 2), max(1, budget // 2), 2)
     _pairs(ctx, rng, plan, out)
     return out
 
@@ -279,14 +438,16 @@ def spec_check(ctx, budget):
 def correspondence(ctx):
     out = new_outcome(
         "the shared pruning model vs the implementation (C02's shadow, leaf arrays from the implementation) on original "
-        "and transformed (re-rooted incl. unary old roots, edge-split, child-reordered) problems; non-trivial = >= 2 unique columns"
+        "and transformed (re-rooted incl. unary old roots, unrooted, midpoint-rooted, edge-split, child-reordered) problems; "
+        "non-trivial = >= 2 unique columns"
     )
     rng = ctx.subrng("corr")
     U.BIG_BINS = ctx.thorough
     rel = new_outcome()
     plan = _plan(ctx, rng, 100, 10, 6, 2) if ctx.thorough else _plan(ctx, rng, 8, 1, 1, 1)
     specs = []
-    _pairs(ctx, rng, [(m, ["reroot", "split", "children"]) for m, _ in plan], rel, collect=specs)
+    _pairs(ctx, rng, [(m, 4) for m, _ in plan], rel, collect=specs,
+           only=("reroot", "split", "children", "unrooted", "midpoint", "root_on_edge"))
     for k, v in rel["dist"].items():
         if k in ("relation",):
             out["dist"]["transformed_" + k] = v
